@@ -36,6 +36,7 @@ inductive Expr (α : Type) where
   | pad (a n : Expr α)
   | mid2 (s i : Expr α)
   | mid3 (s i j : Expr α)
+  | fmt (isE : Bool) (x w p : Expr α)          -- STR_F$(x, w, p) / STR_E$(x, w, p)
   | bin (op : BinOp) (a b : Expr α)
 inductive Args (α : Type) where
   | nil
@@ -67,6 +68,7 @@ inductive Err where
   | stop
   | lex (e : LexErr)
   | notSaved
+  | lineTooLarge
   | unsupported (what : String)   -- outside the model (chemistry functions, PEEK/POKE, editor commands …)
   | resource                       -- array too large for the model
   | fuel
@@ -251,6 +253,28 @@ def pFactor : Nat → List (Tok α) → PRes α (Expr α)
                    match requireK .rp r4 with
                    | .error e => .error e
                    | .ok r5 => .ok (.mid2 s i, r5))
+      | .str_f_ | .str_e_ =>
+        (match requireK .lp r with
+         | .error e => .error e
+         | .ok r1 =>
+           match pExpr fuel r1 with
+           | .error e => .error e
+           | .ok (x, r2) =>
+             match requireK .comma r2 with
+             | .error e => .error e
+             | .ok r3 =>
+               match pExpr fuel r3 with
+               | .error e => .error e
+               | .ok (w, r4) =>
+                 match requireK .comma r4 with
+                 | .error e => .error e
+                 | .ok r5 =>
+                   match pExpr fuel r5 with
+                   | .error e => .error e
+                   | .ok (p, r6) =>
+                     match requireK .rp r6 with
+                     | .error e => .error e
+                     | .ok r7 => .ok (.fmt (k == .str_e_) x w p, r7))
       | .other n => if stmtOnlyOther n then .error (.syntax "missing \" or (") else .error (.unsupported n)
       | _ => .error (.syntax "missing \" or (")
 
@@ -391,6 +415,9 @@ def printAt : Nat → Expr α → List (Tok α)
   | _, .mid2 s i => [.k .mid_, .k .lp] ++ printAt 0 s ++ [.k .comma] ++ printAt 0 i ++ [.k .rp]
   | _, .mid3 s i j =>
     [.k .mid_, .k .lp] ++ printAt 0 s ++ [.k .comma] ++ printAt 0 i ++ [.k .comma] ++ printAt 0 j ++ [.k .rp]
+  | _, .fmt isE x w p =>
+    [.k (if isE then .str_e_ else .str_f_), .k .lp] ++ printAt 0 x ++ [.k .comma] ++ printAt 0 w ++ [.k .comma]
+      ++ printAt 0 p ++ [.k .rp]
 def printArgsTail : Args α → List (Tok α)
   | .nil => [.k .rp]
   | .cons e r => [.k .comma] ++ printAt 0 e ++ printArgsTail r
